@@ -38,6 +38,10 @@ class Ctx:
         self.findings = [f for f in load_findings() if f.get('property') == pid]
         self.write_evidence = write_evidence
         self._distinct = set()
+        rdir = os.path.join(VERIF, 'replays', pid)
+        if os.path.isdir(rdir):
+            for n in os.listdir(rdir):
+                os.remove(os.path.join(rdir, n))
 
     # ---- accounting -------------------------------------------------
     @property
